@@ -189,6 +189,9 @@ func compareWorlds(a, b *World) {
 }
 
 func planC10(prop string, seed uint64, tier string, idx int) *Plan {
+	if idx%8 == 7 {
+		return concSlice(prop, seed, tier, idx)
+	}
 	g := newGen(seed, tier)
 	g.p.Engine = "diff"
 	g.p.Profile = "dir vs mem, restarts"
